@@ -1,7 +1,12 @@
 //! Per-property recording commands, one module per property (registered here).
 use crate::Args;
 
+pub mod c08;
+
 pub fn dispatch(_cmd: &str, _a: &Args) -> bool {
+    if c08::dispatch(_cmd, _a) {
+        return true;
+    }
     match _cmd {
         _ => return false,
     }
